@@ -45,6 +45,8 @@ def step (line : String) : String :=
     match ofHex h with
     | none => "bad-op"
     | some p =>
+      -- proxy/udp.go, proxy/tcp.go: `if qsize <= 14` drops the datagram / closes the connection
+      if p.length ≤ 14 then (if line.startsWith "udp" then "drop" else "close") else
       match parse p with
       | .outOfFuel => "out-of-fuel"
       | .done _ q =>
